@@ -19,7 +19,7 @@ Theorem C18_step_sim {V : Type} (c : fledger V) (s : sstate V) (o : op V) :
 Proof. exact (step_sim_let c s o). Qed.
 Print Assumptions C18_step_sim.
 
-(* the ledger as it is in the repository today (removed-key check before the cache) does
+(* the ledger as it was before the "fix:" commit (removed-key check before the cache) does
    not refine the specification *)
 Theorem C18_ledger_buggy_refuted :
   ∃ ops : list (op N), outs (run_buggy ops) ≠ outs (run_spec ops).
